@@ -142,6 +142,20 @@ def index_facts(e, facts, seen=None):
                                 ln = Lin({("len", norm_atom(src)): 1})
                                 facts.append(gt(ln, Lin({a: 1}), "enumerate index < len(%s)" % S.show(src)[:60]))
                                 facts.append(ge(Lin({a: 1}), Lin(), "index >= 0"))
+                        elif names[:3] == ["iter", "zip", "enumerate"] and all(n == "into_iter" for n in names[3:]):
+                            # X.iter().zip(Y.iter()).enumerate(): the pair sequence is as long as the shorter side
+                            zs = [st_ for st_ in stages if st_[0] == "zip"][0]
+                            srcs = [src]
+                            if zs[1]:
+                                s2, st2 = U.chain(zs[1][0])
+                                if all(n_[0] in ("iter", "into_iter") for n_ in st2):
+                                    srcs.append(s2)
+                            a = norm_atom(x)
+                            if a not in seen:
+                                seen.add(a)
+                                for sx in srcs:
+                                    facts.append(gt(Lin({("len", norm_atom(sx)): 1}), Lin({a: 1}), "enumerate index over a zip < len(%s)" % S.show(sx)[:60]))
+                                facts.append(ge(Lin({a: 1}), Lin(), "index >= 0"))
             elif inner[0] == "down":
                 nx = S.strip_refs(inner[1])
                 if nx[0] == "call" and nx[1].endswith("Iterator::next"):
